@@ -279,14 +279,16 @@ def copy(rc):
             rc.fail(None, None, f"{ci.name}.copy vanished", construct=f"{ci.name}.copy", file=ci.module.rel, func=ci.name)
             continue
         txt = norm(f.node, 100000)
-        if "edges()" not in txt:
+        if not any(call_name(c_) == "edges" for c_ in repo.calls_in(f)):
             rc.fail(f, f.node, f"{ci.name}.copy must carry over the edges", construct="edges")
-        if ci.name in ("BayesianNetwork", "MarkovNetwork", "JunctionTree", "DynamicBayesianNetwork") and "add_nodes_from" not in txt:
+        if ci.name in ("BayesianNetwork", "MarkovNetwork", "JunctionTree", "DynamicBayesianNetwork", "ClusterGraph") and not any(call_name(c_) == "add_nodes_from" for c_ in repo.calls_in(f)):
             rc.fail(f, f.node, f"{ci.name}.copy must carry over isolated nodes", construct="nodes")
         objs = "cpds" if ci.name in ("BayesianNetwork", "DynamicBayesianNetwork") else "factors"
         per_elem = any(isinstance(n, (ast.ListComp, ast.GeneratorExp)) and isinstance(n.elt, ast.Call) and call_name(n.elt) == "copy" for n in ast.walk(f.node))
         if not per_elem:
             rc.fail(f, f.node, f"{ci.name}.copy must copy each of its {objs}", construct=f"copy each {objs}")
+    shared.copy_completeness_rule(rc, [(DAGF, "DAG"), (DAGF, "PDAG"), (BN, "BayesianNetwork"), (MN, "MarkovNetwork"), (JT, "JunctionTree"), (CG, "ClusterGraph"),
+                                       (DBN, "DynamicBayesianNetwork"), ("pgmpy/models/FactorGraph.py", "FactorGraph")])
     bn = repo.func(BN, "BayesianNetwork.copy")
     if "latents" not in norm(bn.node, 100000):
         rc.fail(bn, bn.node, "BayesianNetwork.copy must carry over the latent set", construct="latents carried")
@@ -301,6 +303,12 @@ def defuse(rc):
     _sh.defuse_rule(rc, _sh.anchor_files("C15"))
 
 MUTANTS = [
+    dict(kind="break", name="dag-copy-loses-latents", file=DAGF, expect="C15.copy",
+         old="        if not as_view:\n            dag.latents = set(self.latents)\n", new=""),
+    dict(kind="break", name="markov-copy-loses-latents", file=MN, expect="C15.copy",
+         old="        clone_graph = MarkovNetwork(self.edges(), latents=self.latents)", new="        clone_graph = MarkovNetwork(self.edges())"),
+    dict(kind="break", name="cluster-copy-loses-isolated-cliques", file=CG, expect="C15.copy",
+         old="        copy = ClusterGraph(self.edges())\n        copy.add_nodes_from(self.nodes())\n", new="        copy = ClusterGraph(self.edges())\n"),
     dict(kind="break", name="bn-path-check-wrong-direction", file=BN, expect="C15.guard",
          old=_BN_ADD, new=_BN_ADD.replace("nx.has_path(self, v, u)", "nx.has_path(self, u, v)")),
     dict(kind="break", name="bn-no-self-loop-check", file=BN, expect="C15.guard",
